@@ -34,7 +34,8 @@ type chunkScenario struct {
 	latency  time.Duration
 	decide   vnet.Decider
 	sendTO   time.Duration // send deadline for the first attempt of each message
-	recvTO   time.Duration // receive deadline for the first attempt of each Recv
+	recvTO   time.Duration // receive deadline for the first attempts of each Recv
+	recvTries int          // how many attempts use the deadline (default 1)
 	horizon  time.Duration
 }
 
@@ -104,6 +105,13 @@ func TestC14Chunk(t *testing.T) {
 		scen = append(scen, chunkScenario{name: "recvDeadline", M: 2, n: 1, lens: []int{7, 3, 0, 5},
 			latency: 100 * time.Millisecond, recvTO: time.Duration(to) * time.Millisecond})
 	}
+	// many short receive deadlines in a row: several time out inside the same
+	// message, some of them without a new chunk having arrived in between
+	for _, to := range []int{30, 50, 90, 130} {
+		scen = append(scen, chunkScenario{name: "recvDeadline", M: 2, n: 1, lens: []int{7, 4, 9},
+			latency: 100 * time.Millisecond, recvTO: time.Duration(to) * time.Millisecond,
+			recvTries: 40})
+	}
 	for si, sc := range scen {
 		sc := sc
 		beat(map[string]any{"scenario": sc.name, "M": sc.M, "i": si})
@@ -150,9 +158,15 @@ func TestC14Chunk(t *testing.T) {
 						run.Server.SetRecvTimeout(sc.recvTO)
 					}
 					b, err := run.Server.Recv()
-					if err != nil && sc.recvTO > 0 {
+					tries := sc.recvTries
+					if tries == 0 {
+						tries = 1
+					}
+					for k := 1; err != nil && sc.recvTO > 0 && k <= tries; k++ {
 						emit(map[string]any{"op": "recv", "len": 0, "h": 0, "err": err.Error()})
-						run.Server.SetRecvTimeout(time.Duration(1<<63 - 1))
+						if k == tries {
+							run.Server.SetRecvTimeout(time.Duration(1<<63 - 1))
+						}
 						b, err = run.Server.Recv()
 					}
 					es := ""
